@@ -197,16 +197,22 @@ class Sched:
     return nxt
 
   def _handoff(self, cur):
+    """Returns 'self' if `cur` keeps running, 'other' if another thread was
+    woken, 'over' if the run ended.  The caller must act on the return value
+    only: once the other thread's semaphore is released it runs concurrently
+    with the tail of this function and may already have handed control back
+    (re-reading self.current here was a real race: the token released for
+    `cur` stayed unconsumed and two threads ran at once later on)."""
     nxt = self._pick_next(cur)
     if nxt is None:
       # run over (all done) or failure: wake the harness
       self._teardown_all(cur)
-      return False
+      return 'over'
     self.current = nxt
     if nxt is cur:
-      return True
+      return 'self'
     nxt.sem.release()
-    return True
+    return 'other'
 
   def _teardown_all(self, cur):
     self.active_end = True
@@ -229,8 +235,7 @@ class Sched:
       st.cond = cond
       st.wake_at = wake_at
       st.why = why
-      ok = self._handoff(st)
-      if not ok or self.current is not st:
+      if self._handoff(st) != 'self':
         st.sem.acquire()
         if not self.active:
           raise _Abandon()
@@ -380,7 +385,11 @@ class CoopLock:
       SCHED.emit('rel', self.label, getattr(self.owner, 'name', str(self.owner)))
     self.owner = None
     if not self.quiet and controlled():
-      SCHED.yield_('lock.release')
+      # Condition.wait releases its lock in _release_save just before the
+      # try/finally that restores it: an asynchronous exception raised in that
+      # gap (a stdlib artefact, a few bytecodes wide) would make the enclosing
+      # `with cond:` release an unlocked lock.  Not delivered here.
+      SCHED.yield_('lock.release', deliver=sys._getframe(1).f_code.co_name != '_release_save')
 
   def locked(self):
     return self.owner is not None
@@ -462,9 +471,14 @@ class CoopEvent(_real_Event):
   isSet = is_set
 
   def set(self):
-    if controlled():
-      SCHED.emit('set', id(self))
-    _real_Event.set(self)
+    # the 'set' event is logged at the flag write itself (under the event's
+    # condition lock), so that its position in the log is the linearization
+    # point of the set
+    with self._cond:
+      self._flag = True
+      if controlled():
+        SCHED.emit('set', id(self))
+      self._cond.notify_all()
 
   def clear(self):
     _real_Event.clear(self)
